@@ -31,6 +31,12 @@ func (fr *frame) goStmt(x *ssa.Go) {
 
 func (fr *frame) havocCapturesOf(fv Val) {
 	u := fr.u
+	// the closure may allocate: the allocation counter moves forward, and whatever references it
+	// leaves in the captured variables point to objects that exist afterwards
+	allocPre := fr.st.get(u, u.regKey(allocKey, "Int"))
+	allocPost := u.declConst(fr.tag("alloc_hv"), "Int")
+	u.assert("(>= " + allocPost + " " + allocPre + ")")
+	fr.st.set(allocKey, allocPost)
 	for i, b := range fv.binds {
 		if fv.fn == nil || i >= len(fv.fn.FreeVars) {
 			break
@@ -48,6 +54,9 @@ func (fr *frame) havocCapturesOf(fv Val) {
 				cur := u.loadPtr(p, fr.st)
 				k := u.keyM(sl.Elem())
 				arr := u.declConst(fr.tag("gohv_elems"), fmt.Sprintf("(Array %s %s)", u.mode.idxSort(), u.sortOf(sl.Elem())))
+				for _, rt := range u.refTermsOf("(select "+arr+" i!g)", sl.Elem(), 0) {
+					u.assert(fmt.Sprintf("(forall ((i!g %s)) (! (<= %s %s) :pattern ((select %s i!g))))", u.mode.idxSort(), rt, allocPost, arr))
+				}
 				fr.st.setAt(k, fmt.Sprintf("(store %s (s_ref %s) %s)", fr.st.get(u, k), cur, arr), "(s_ref "+cur+")")
 				if ti := u.typeInvariant("(select "+arr+" i!g)", sl.Elem(), 0); ti != "" {
 					u.assert(fmt.Sprintf("(forall ((i!g %s)) (! %s :pattern ((select %s i!g))))", u.mode.idxSort(), ti, arr))
@@ -55,6 +64,12 @@ func (fr *frame) havocCapturesOf(fv Val) {
 				continue
 			}
 			if !contents {
+				continue
+			}
+			// the closure only reads the variable and passes its value on: the variable keeps its
+			// value; what happens to the object it refers to is the business of the closure's
+			// modifies clause (checked in the closure's own unit) when it has one
+			if ct := u.eng.ContractFor(fv.fn); ct != nil && ct.HasMod {
 				continue
 			}
 		}
@@ -65,11 +80,14 @@ func (fr *frame) havocCapturesOf(fv Val) {
 		if isRefLike(pt.Elem()) {
 			u.assert("(>= " + refOf(c, pt.Elem()) + " 0)")
 		}
+		for _, rt := range u.refTermsOf(c, pt.Elem(), 0) {
+			u.assert("(<= " + rt + " " + allocPost + ")")
+		}
 		u.storePtr(p, fr.st, c)
 		if sl, ok := pt.Elem().Underlying().(*types.Slice); ok {
 			k := u.keyM(sl.Elem())
 			hc := u.declConst(fr.tag("gohv_"+k), u.keySort[k])
-			u.heapTyping(k, hc)
+			u.heapTypingA(k, hc, allocPost)
 			fr.st.set(k, hc)
 		}
 	}
